@@ -350,10 +350,10 @@ class CFG:
                 Production(term_to_var[terminal], [terminal]))
         return new_productions
 
-    def _get_next_free_variable(self, idx, prefix):
+    def _get_next_free_variable(self, idx, prefix, taken=()):
         idx += 1
         temp = Variable(prefix + str(idx))
-        while temp in self._variables:
+        while temp in self._variables or temp in taken:
             idx += 1
             temp = Variable(prefix + str(idx))
         return idx, temp
@@ -363,6 +363,8 @@ class CFG:
         idx = 0
         new_productions = []
         done = {}
+        # The variables introduced for the terminals are heads of productions
+        taken = {production.head for production in productions}
         for production in productions:
             body = production.body
             if len(body) <= 2:
@@ -370,7 +372,8 @@ class CFG:
                 continue
             new_var = []
             for _ in range(len(body) - 2):
-                idx, var = self._get_next_free_variable(idx, "C#CNF#")
+                idx, var = self._get_next_free_variable(idx, "C#CNF#",
+                                                        taken)
                 new_var.append(var)
             head = production.head
             stopped = False
